@@ -154,8 +154,13 @@ impl QoSController {
     }
 
     pub fn add_resource(&mut self, resource: ResourceStructure) {
-        self.number_of_resources += 1;
-        self.length += resource.len() as u16;
+        // The controller length and resource count are 16-bit fields.
+        self.number_of_resources = self
+            .number_of_resources
+            .checked_add(1)
+            .expect("RQSC controller resource count must fit in 16 bits");
+        self.length = u16::try_from(self.length as usize + resource.len())
+            .expect("RQSC controller length must fit in 16 bits");
         self.resource_structure.push(resource);
     }
 }
